@@ -15,6 +15,8 @@ def run(chk):
 
 
 def search(chk):
+    from checks import range_search as _rs
+    _rs.search(chk, [chk.pid])
     res = ac.exploration(chk)
     for k, f in sorted(res["findings"].items()):
         if f["property"] == "C02":
